@@ -292,6 +292,26 @@ def run_roundtrip(ctx: Ctx, quick: bool = True) -> None:
                 return True, ""
             _guard(ctx, "T18.channel-less", f"{ext}:D={D}", fW, f"format={ext} D={D} data without channel axis", thc)
 
+    # every SimpleITK pixel type the conversion handles: the tensor type it is widened to holds every value
+    ctx.rule("T18.sitk-types", "tensor_from_image / Image.from_sitk of a SimpleITK image of pixel type uint8, int8, uint16, int16, uint32, int32, "
+                               "int64, float32, float64 (symbolic voxels ranging over the whole type): the tensor holds exactly the voxel "
+                               "values — unsigned types that torch lacks are widened to a signed type that contains their range")
+    fTI = prog.func("deepali.utils.simpleitk.torch", "tensor_from_image")
+    for pix in ("uint8", "int8", "uint16", "int16", "uint32", "int32", "int64", "float32", "float64"):
+        def thp(pix=pix):
+            env = IOEnv(ctx)
+            it = env.it
+            g, geo = env.grid(2)
+            for C in (1, 2):
+                data = env.data(2, C, pix)
+                im = sitk_make(data, geo)
+                t = it.call(fTI, im)
+                ok, msg = same_data(t, data)
+                if not ok:
+                    return False, f"pixel type {pix}, {C} component(s): {msg}"
+            return True, ""
+        _guard(ctx, "T18.sitk-types", pix, fTI, f"SimpleITK pixel type {pix}", thp)
+
 
 def run_entry_points(ctx: Ctx) -> None:
     prog = ctx.prog
